@@ -338,6 +338,8 @@ func (x *c1runner) confirm(p c1prog, cls string, pref c1arr) (ok bool, why strin
 	min, f, found := c1MinimiseProg(p, cls, budget, []c1arr{pref})
 	if !found {
 		ok, why = false, "the failing arrangement could not be reproduced for minimisation"
+	} else if f.cls == "" {
+		ok, why = false, "the minimised program also fails under an arrangement that shows no known shape"
 	} else if f.byRule {
 		ok, why, f.cls = c1Strict2(min, f.texts, f.cls, nil)
 	} else {
@@ -552,6 +554,9 @@ func (x *c1runner) check(p c1prog, r *Rng) int {
 				}
 			}
 		}
+		if cls == "" && p.stream == "corpus" {
+			cls = c1corpusClass(p.name, "")
+		}
 		c.Direct(false, cls, "canon(eval P) != canon(eval P'): "+c1diffString(diffs), rec)
 	}
 	c.Case(p.src, nontrivial && strings.Contains(base.canon, ","))
@@ -636,6 +641,9 @@ func c1classify(p c1prog, base, res c1res, diffs []c1diff, texts ...string) (str
 	cycleDir := p.stream == "corpus" && strings.Contains(p.name, "/cycle/")
 	listCompr := c1hasFieldListComprehension(p.src)
 	sibRef := c1hasSiblingRefConj(p.src)
+	aliasConj := !embRef && !sibFirst && c1hasAliasAllRefConj(p.src)
+	nestedMark := c1hasNestedMark(p.src)
+	patRef := !embRef && c1hasPatternRef(p.src) && strings.Contains(p.src, "|")
 	// paths at which one side reports an error: a differing ancestor of such a path is derived
 	var errPaths []string
 	for _, d := range diffs {
@@ -660,6 +668,13 @@ func c1classify(p c1prog, base, res c1res, diffs []c1diff, texts ...string) (str
 			// `r: p & q` over sibling fields holding (definition) references: error-vs-value,
 			// closed flag and Allows answers of r
 			found["closedness-through-sibling-field-references-depends-on-order"] = true
+		case aliasConj && (d.kind == "err-vs-value" || d.kind == "absent" ||
+			(d.kind == "value" && c1flagRe.ReplaceAllString(sa, "") == c1flagRe.ReplaceAllString(sb, ""))):
+			found["closedness-lost-when-alias-of-definition-comes-first-in-all-reference-conjunction"] = true
+		case nestedMark && d.kind == "value" && (strings.Contains(sa, ";*") != strings.Contains(sb, ";*")):
+			found["default-of-nested-marked-disjunction-depends-on-operand-order"] = true
+		case patRef && d.kind == "value" && !sibFirst && !aliasConj:
+			found["disjunct-selection-under-pattern-constraint-with-reference"] = true
 		case d.kind == "err-collapse":
 			found["erroneous-node-bare-bottom-or-struct-with-erroneous-children"] = true
 		case listCompr && c1listElemRe.MatchString(d.path) && d.kind != "err-class":
@@ -718,6 +733,9 @@ func c1classify(p c1prog, base, res c1res, diffs []c1diff, texts ...string) (str
 		}
 	}
 	for _, c := range []string{"list-from-field-comprehension-order", "closedness-through-sibling-field-references-depends-on-order",
+		"closedness-lost-when-alias-of-definition-comes-first-in-all-reference-conjunction",
+		"default-of-nested-marked-disjunction-depends-on-operand-order",
+		"disjunct-selection-under-pattern-constraint-with-reference",
 		"closedness-of-embedded-reference-depends-on-arrangement",
 		"self-reference-inside-disjunction-or-comprehension", "cyclic-mutual-constraint-error-placement",
 		"default-order-several-marked-disjunctions",
@@ -770,6 +788,15 @@ func c1Shapes(p c1prog, texts []string) map[string]bool {
 	if c1hasSiblingRefConj(p.src) {
 		sh["F"] = true
 	}
+	if c1hasAliasAllRefConj(p.src) {
+		sh["A"] = true
+	}
+	if c1hasNestedMark(p.src) {
+		sh["N"] = true
+	}
+	if c1hasPatternRef(p.src) {
+		sh["P"] = true
+	}
 	return sh
 }
 
@@ -778,6 +805,9 @@ func c1Shapes(p c1prog, texts []string) map[string]bool {
 var c1classShape = map[string]string{
 	"closedness-of-embedded-reference-depends-on-arrangement":  "E",
 	"closedness-through-sibling-field-references-depends-on-order": "F",
+	"default-of-nested-marked-disjunction-depends-on-operand-order": "N",
+	"disjunct-selection-under-pattern-constraint-with-reference":    "P",
+	"closedness-lost-when-alias-of-definition-comes-first-in-all-reference-conjunction": "A",
 	"top-unified-with-struct-holding-failing-comprehension":   "C",
 	"self-reference-inside-disjunction-or-comprehension":      "S",
 	"default-order-several-marked-disjunctions":                "M",
@@ -803,6 +833,7 @@ func c1Strict(p c1prog, texts []string, cls string, found map[string]bool) (bool
 const c1clsE = "closedness-of-embedded-reference-depends-on-arrangement"
 const c1clsF = "closedness-through-sibling-field-references-depends-on-order"
 const c1clsEF = "closedness-through-sibling-field-references-to-embedded-definition"
+const c1clsEC = "closedness-of-embedded-reference-next-to-comprehension"
 
 // c1Strict2 also returns the class the pair is listed under (the combination of the sibling
 // reference shape with an embedded definition is a finding of its own).
@@ -816,6 +847,14 @@ func c1Strict2(p c1prog, texts []string, cls string, found map[string]bool) (boo
 				}
 			}
 			return true, "", c1clsEF
+		}
+		if cls == c1clsE && len(sh) == 2 && sh["E"] && sh["C"] {
+			for c := range found {
+				if c != c1clsE && !c1neutral[c] {
+					return false, "differences of two classes: " + cls + " and " + c, cls
+				}
+			}
+			return true, "", c1clsEC
 		}
 	}
 	if cls == "top-unified-with-struct-holding-failing-comprehension" {
@@ -968,6 +1007,114 @@ func c1hasSiblingRefConj(src string) bool {
 	ast.Walk(f, func(n ast.Node) bool {
 		if s, ok := n.(*ast.StructLit); ok {
 			check(s.Elts)
+		}
+		return !found
+	}, nil)
+	return found
+}
+
+// c1hasAliasAllRefConj: (a) a regular field that is nothing but a reference to a definition
+// (`C: #A`: structure sharing makes C.x and #A.x one vertex) and (b) a field whose value is a
+// conjunction of three or more operands ALL of which are references (no literal operand).
+func c1hasAliasAllRefConj(src string) bool {
+	f, err := c1parse(src)
+	if err != nil {
+		return false
+	}
+	alias, conj := false, false
+	var operands func(e ast.Expr, n *int, allRef *bool)
+	operands = func(e ast.Expr, n *int, allRef *bool) {
+		switch x := c1unparen(e).(type) {
+		case *ast.BinaryExpr:
+			if x.Op == token.AND {
+				operands(x.X, n, allRef)
+				operands(x.Y, n, allRef)
+				return
+			}
+			*n++
+			*allRef = false
+		case *ast.Ident:
+			*n++
+			if c1predecl[x.Name] {
+				*allRef = false
+			}
+		case *ast.SelectorExpr:
+			*n++
+		default:
+			*n++
+			*allRef = false
+		}
+	}
+	ast.Walk(f, func(n ast.Node) bool {
+		if fd, ok := n.(*ast.Field); ok {
+			if id, ok := fd.Value.(*ast.Ident); ok && strings.HasPrefix(id.Name, "#") {
+				if lab, ok := fd.Label.(*ast.Ident); ok && !strings.HasPrefix(lab.Name, "#") {
+					alias = true
+				}
+			}
+			cnt, all := 0, true
+			operands(fd.Value, &cnt, &all)
+			if cnt >= 3 && all {
+				conj = true
+			}
+		}
+		return true
+	}, nil)
+	return alias && conj
+}
+
+// c1hasNestedMark: a default mark on a disjunct of a disjunction that is itself an operand of
+// another disjunction, e.g. `1 | (*2 | 3)`.
+func c1hasNestedMark(src string) bool {
+	f, err := c1parse(src)
+	if err != nil {
+		return false
+	}
+	found := false
+	var disj func(e ast.Expr, depth int)
+	disj = func(e ast.Expr, depth int) {
+		switch x := e.(type) {
+		case *ast.ParenExpr:
+			if b, ok := c1unparen(x).(*ast.BinaryExpr); ok && b.Op == token.OR {
+				disj(b, depth+1)
+			}
+		case *ast.BinaryExpr:
+			if x.Op == token.OR {
+				for _, o := range []ast.Expr{x.X, x.Y} {
+					if u, ok := o.(*ast.UnaryExpr); ok && u.Op == token.MUL && depth >= 1 {
+						found = true
+					}
+					disj(o, depth)
+				}
+			}
+		}
+	}
+	ast.Walk(f, func(n ast.Node) bool {
+		if b, ok := n.(*ast.BinaryExpr); ok && b.Op == token.OR {
+			disj(b, 0)
+		}
+		return !found
+	}, nil)
+	return found
+}
+
+// c1hasPatternRef: a pattern constraint whose value is (a conjunction with) a reference.
+func c1hasPatternRef(src string) bool {
+	f, err := c1parse(src)
+	if err != nil {
+		return false
+	}
+	found := false
+	ast.Walk(f, func(n ast.Node) bool {
+		if fd, ok := n.(*ast.Field); ok {
+			if _, isPat := fd.Label.(*ast.ListLit); isPat {
+				ast.Walk(fd.Value, func(m ast.Node) bool {
+					if id, ok := m.(*ast.Ident); ok && !c1predecl[id.Name] {
+						found = true
+					}
+					return !found
+				}, nil)
+			}
 		}
 		return !found
 	}, nil)
@@ -1324,18 +1471,29 @@ func c1Worker(c *Cfg, w, n, start int) {
 		sl := slots[i]
 		x.idx = i
 		if sl.refs {
-			// error-free programs only (references INTO erroneous structs are the
-			// error-placement findings; they would drown the stream)
+			// the HOLDERS (#A, #B, A, B and their aliases) must be error-free: references INTO
+			// erroneous structs are the error-placement findings and would drown the stream;
+			// the uses (y z w v u) may be erroneous, e.g. by a field a closed holder rejects
 			okProg := false
 			for try := 0; try < 10 && !okProg; try++ {
 				sl.prog.src = (&c1refgen{r: sl.gen.Sub()}).Program()
 				x.note(i, sl.prog.name, []string{sl.prog.src})
-				if res := c1Eval([]string{sl.prog.src}); res.info != nil && res.info.nErr == 0 {
-					okProg = true
+				res := c1Eval([]string{sl.prog.src})
+				if res.info == nil {
+					continue
+				}
+				okProg = true
+				for path, n := range res.info.paths {
+					if strings.Count(path, "/") == 1 && len(path) >= 2 && strings.ContainsRune("#ABCDEFS\"", rune(path[1])) {
+						name := strings.Trim(path[1:], "\"")
+						if len(name) > 0 && (name[0] == '#' || (name[0] >= 'A' && name[0] <= 'F') || name[0] == 'S') && strings.Contains(n.full, "_|_(") {
+							okProg = false
+						}
+					}
 				}
 			}
 			if !okProg {
-				c.Count("refs:dropped-erroneous")
+				c.Count("refs:dropped-erroneous-holder")
 				continue
 			}
 		} else if sl.gen != nil {
